@@ -33,13 +33,13 @@ Section Inv.
   Notation run := (run py fetch extract format master).
   Notation init := (init py fetch extract master).
 
-  (* a stacked state is a copy made by t.fetch() *)
-  Definition fetched (t:obj) : Prop := exists w, fetch w [] = OOk t.
+  (* a stacked state is a (deep) copy of a former working tree: re-indexing it does not raise *)
+  Definition reindexable (t:obj) : Prop := werr (index_of t) = None.
 
   Definition Inv (s:state) : Prop :=
     (dirty s = false -> forall p, params s = Some p -> extract (working s) = OOk p)
     /\ pidx s = widx (index_of (working s))
-    /\ Forall fetched (states s)
+    /\ Forall reindexable (states s)
     /\ (forall p, params s = Some p -> pyok p)
     /\ werr (index_of (working s)) = None.
 
@@ -61,7 +61,7 @@ Section Inv.
 
   Lemma Inv_mk : forall w p d st idx ms md,
     (d = false -> forall q, p = Some q -> extract w = OOk q) ->
-    idx = widx (index_of w) -> Forall fetched st -> (forall q, p = Some q -> pyok q) ->
+    idx = widx (index_of w) -> Forall reindexable st -> (forall q, p = Some q -> pyok q) ->
     werr (index_of w) = None ->
     Inv (mkst w p d st idx ms md).
   Proof. intros. unfold Inv. cbn. auto. Qed.
@@ -110,23 +110,21 @@ Section Inv.
       + absurd_broke.
   Qed.
 
-  Lemma ufp_tail_inv : forall po p s1,
+  Lemma ufp_tail_inv : forall p s1,
     H_fmt ->
-    Forall fetched (states s1) -> params s1 = Some p -> pyok p -> (po = None -> Inv s1) ->
-    ~ broke (snd (ufp_tail py fetch format master po p s1)) -> Inv (fst (ufp_tail py fetch format master po p s1)).
+    Forall reindexable (states s1) -> reindexable (working s1) -> params s1 = Some p -> pyok p ->
+    ~ broke (snd (ufp_tail py format master p s1)) -> Inv (fst (ufp_tail py format master p s1)).
   Proof.
-    intros po p s1 Hf Hst Hpar Hp Hnone. unfold ufp_tail, push.
-    destruct (fetch (working s1) []) as [c|e] eqn:F.
-    - destruct (format master p) as [t|e] eqn:Fm; cbn [fst snd].
-      + destruct (rebuild_then_spec (set_working py (set_states py s1 (states s1 ++ [c])) t) (fun s3 => (s3, ONone))) as [[e H]|[HW H]];
-          rewrite H; cbn [fst snd].
-        * absurd_broke.
-        * intros _. destruct s1; cbn in *. subst params. apply Inv_mk; auto.
-          -- intros Hd q Hq. inversion Hq; subst q. eapply Hf; eauto.
-          -- apply Forall_app. split; [exact Hst|]. constructor; [|constructor]. exists working. exact F.
-          -- intros q Hq. inversion Hq; subst q. exact Hp.
+    intros p s1 Hf Hst Hw Hpar Hp. unfold ufp_tail, push.
+    destruct (format master p) as [t|e] eqn:Fm; cbn [fst snd].
+    - destruct (rebuild_then_spec (set_working py (set_states py s1 (states s1 ++ [working s1])) t) (fun s3 => (s3, ONone))) as [[e H]|[HW H]];
+        rewrite H; cbn [fst snd].
       + absurd_broke.
-    - cbn [fst snd]. destruct po; [absurd_broke|]. intros _. apply Hnone. reflexivity.
+      + intros _. destruct s1; cbn in *. subst params. apply Inv_mk; auto.
+        * intros Hd q Hq. inversion Hq; subst q. eapply Hf; eauto.
+        * apply Forall_app. split; [exact Hst|]. constructor; [exact Hw|constructor].
+        * intros q Hq. inversion Hq; subst q. exact Hp.
+    - absurd_broke.
   Qed.
 
   Theorem inv_step : forall s o,
@@ -141,13 +139,13 @@ Section Inv.
     - intros _; exact HI.
     - (* update_from_python *)
       destruct po as [p|].
-      + cbn in Hok. apply ufp_tail_inv; auto; try discriminate.
+      + cbn in Hok. apply ufp_tail_inv; auto.
       + destruct (params s) as [p|] eqn:P; [|intros _; exact HI].
         apply ufp_tail_inv; auto.
     - (* push *)
-      unfold push. destruct (fetch (working s) []) as [c|e] eqn:F; cbn [fst snd]; intros _; [|exact HI].
+      unfold push. cbn [fst snd]. intros _.
       destruct s; cbn in *. apply Inv_mk; auto.
-      apply Forall_app. split; [exact I3|]. constructor; [|constructor]. exists working. exact F.
+      apply Forall_app. split; [exact I3|]. constructor; [exact I5|constructor].
     - (* pop *)
       destruct (states s) as [|x l] eqn:S; [intros _; exact HI|]. rewrite <- S. rewrite <- S in I3.
       match goal with |- context [rebuild_then py ?s2 ?k] =>
@@ -159,7 +157,6 @@ Section Inv.
       destruct (i <? 0)%Z; [intros _; exact HI|].
       destruct (states s) as [|x l] eqn:S; [intros _; exact HI|]. rewrite <- S. rewrite <- S in I3.
       destruct (nth_error (states s) (Z.to_nat i)) as [t|]; [|intros _; exact HI].
-      destruct (fetch t []) as [c|e]; [|intros _; exact HI].
       match goal with |- context [rebuild_then py ?s2 ?k] =>
         destruct (rebuild_then_spec s2 k) as [[e H]|[HW H]]; rewrite H; cbn [fst snd] end.
       + absurd_broke.
@@ -260,11 +257,10 @@ Section Inv.
       destruct fx; destruct s1; cbn in *; auto.
   Qed.
 
-  Lemma push_spec : forall fx s c,
-    fetch (working s) [] = OOk c ->
-    states (step1 fx s Push) = states s ++ [c] /\ working (step1 fx s Push) = working s.
+  Lemma push_spec : forall fx s,
+    states (step1 fx s Push) = states s ++ [working s] /\ working (step1 fx s Push) = working s.
   Proof.
-    intros fx s c F. unfold Index.step1. cbn [Index.step]. unfold push. rewrite F. destruct s; cbn. auto.
+    intros fx s. unfold Index.step1. cbn [Index.step]. unfold push. destruct s; cbn. auto.
   Qed.
 
   (* a history that leaves the stack as it found it and never pops below its starting depth *)
@@ -287,23 +283,42 @@ Section Inv.
       + rewrite IH4. rewrite Hs in IH2. destruct (pop_spec fx s1 _ _ IH2) as [_ E]. exact E.
   Qed.
 
-  Theorem pop_restores : forall fx s c l s1,
-    fetch (working s) [] = OOk c ->
+  (* push_state keeps a value copy of the working tree (no library call): no hypothesis on fetch *)
+  Theorem pop_restores : forall fx s l s1,
     balanced fx (step1 fx s Push) l s1 ->
     s1 = run fx (Push :: l) s
-    /\ working (step1 fx s1 Pop) = c /\ states (step1 fx s1 Pop) = states s.
+    /\ working (step1 fx s1 Pop) = working s /\ states (step1 fx s1 Pop) = states s.
   Proof.
-    intros fx s c l s1 F B. destruct (push_spec fx s c F) as [Hs _].
+    intros fx s l s1 B. destruct (push_spec fx s) as [Hs _].
     destruct (balanced_spec _ _ _ _ B) as [E1 E2]. rewrite Hs in E2.
     split; [exact E1|]. exact (pop_spec fx s1 _ _ E2).
   Qed.
 
-  (* under self-fetch identity for the tree at the push (a C07-like fact about the library) *)
-  Theorem pop_restores_same : forall fx s l s1,
-    fetch (working s) [] = OOk (working s) ->
-    balanced fx (step1 fx s Push) l s1 ->
-    working (step1 fx s1 Pop) = working s.
-  Proof. intros fx s l s1 F B. destruct (pop_restores fx s _ l s1 F B) as (_ & E & _). exact E. Qed.
+  (* the stack operations never leave the index half-changed in a state satisfying the invariant:
+     push_state calls nothing that can raise, and the tree pop_state / set_state re-index is a copy
+     of a former working tree *)
+  Theorem stack_ops_total : forall fx s,
+    Inv s ->
+    ~ broke (snd (step fx s Push)) /\ ~ broke (snd (step fx s Pop))
+    /\ forall i, ~ broke (snd (step fx s (SetState i))).
+  Proof.
+    intros fx s (I1 & I2 & I3 & I4 & I5). split; [|split].
+    - cbn [Index.step snd]. intros [].
+    - cbn [Index.step]. destruct (states s) as [|x l] eqn:S; [intros []|]. rewrite <- S. rewrite <- S in I3.
+      assert (Hl : reindexable (last (states s) (working s))).
+      { apply Forall_last; [exact I3|]. rewrite S. discriminate. }
+      unfold reindexable in Hl. unfold rebuild_then.
+      destruct fx; destruct s as [w p d st ix ms md]; cbn [working set_working set_states invalidate states set_pidx] in *.
+      all: rewrite Hl; intros [].
+    - intros i. cbn [Index.step]. destruct (i <? 0)%Z; [intros []|].
+      destruct (states s) as [|x l] eqn:S; [intros []|]. rewrite <- S. rewrite <- S in I3.
+      destruct (nth_error (states s) (Z.to_nat i)) as [t|] eqn:N; [|intros []].
+      assert (Ht : reindexable t).
+      { rewrite Forall_forall in I3. apply I3. eapply nth_error_In. exact N. }
+      unfold reindexable in Ht. unfold rebuild_then.
+      destruct fx; destruct s as [w p d st ix ms md]; cbn [working set_working invalidate states set_pidx] in *.
+      all: rewrite Ht; intros [].
+  Qed.
 
   (* ---------- the same update twice *)
   Lemma merge_ONone : forall s u only ov,
